@@ -206,3 +206,37 @@ Lemma C16_nonvacuous_proof :
   /\ map (model_alive wit_cfg1 (repeat (EFail 0 Tcp4 KTraffic false []) 10 ++ [EFail 0 Tcp6 KCheck false []] ++ repeat (EFail 0 DnsUdp6 KTrans false []) 3) 0) all_doms
      = [false; false; false; false; false; false].
 Proof. vm_compute. repeat split. Qed.
+
+(* ---------- shared definitions for the history theorems (statements live in C16_Props.v) ---------- *)
+Definition no_reload (e : ev) : bool := match e with EReload _ => false | _ => true end.
+Definition s_run_from (cfg : config) (s : sstate) (h : list ev) : sstate := fold_left (fun s e => fst (s_step cfg s e)) h s.
+Definition m_run_from (cfg : config) (m : mstate) (h : list ev) : mstate := fold_left (m_step cfg) h m.
+
+(* the abstraction of a model state (counts read from the code's counters) *)
+Definition abs_state (m : mstate) : sstate :=
+  {| s_dom := fun n d => {| sa := d_alive (m_d m n) d; sp := md_fail (m_d m n) (index_of d); st := md_traffic (m_d m n) (index_of d) |};
+     s_deaths := m_tracker m; s_supp := m_supp m; s_window := m_window m |}.
+
+(* consecutive counted failures of one source, as the spec keeps them *)
+Definition run_of (x : sdom) (traffic : bool) : N := if traffic then st x else sp x.
+Definition k_of (d : dom) (traffic : bool) : N := if traffic then k_traffic d else k_probe d.
+
+(* a callback log is valid from a0 to a1 when every entry is an actual flip of the flag it names and the
+   flags reached at the end are a1 *)
+Fixpoint walk_log (cur : N -> dom -> bool) (l : tlog) : option (N -> dom -> bool) :=
+  match l with
+  | [] => Some cur
+  | (n, d, b) :: r =>
+      if Bool.eqb (cur n d) b then None
+      else walk_log (fun n' d' => if (n' =? n) && dom_eqb d' d then b else cur n' d') r
+  end.
+Definition valid_log (a0 : N -> dom -> bool) (l : tlog) (a1 : N -> dom -> bool) : Prop :=
+  exists f, walk_log a0 l = Some f /\ forall n d, f n d = a1 n d.
+
+(* the connectivity slot of a latency-policy group, from alive flags *)
+Definition bit_of_alive (al : N -> dom -> bool) (g : group) (d : dom) : bool :=
+  Nat.eqb (length (g_members g)) 0 || existsb (fun x => al x d) (map fst (g_members g)).
+
+Definition groups_disjoint (cfg : config) : Prop :=
+  forall i j gi gj x, i <> j -> nth_error (c_groups cfg) i = Some gi -> nth_error (c_groups cfg) j = Some gj ->
+    In x (map fst (g_members gi)) -> ~ In x (map fst (g_members gj)).
